@@ -3,8 +3,8 @@ CONSTANTS
   MaxVariants = 2
   MaxFields = 1
   VMenu = {"none", "ren", "vexpr", "ghostd", "ghost", "hint_tuple", "hint_struct", "hint_unit", "hint_tuple_ded"}
-  FMenu = {"none", "ren", "expr", "ghostd"}
-  VGs = {0}
+  FMenu = {"none", "ren", "expr", "renexpr", "swap", "swapexpr", "ghostd"}
+  VGs = {0, 1}
   EGs = {0, 1}
 INVARIANTS Emit Symmetric
 CHECK_DEADLOCK FALSE
